@@ -78,7 +78,7 @@ func (f *FuncVC) mapLen(st *State, m *Val) string {
 	t := sel(ln, m.T)
 	if f.pure == 0 {
 		t = f.sc.define("mlen", "Int", t)
-		f.sc.assert(and(cmp(">=", t, "0"), implies(eq(m.T, "0"), eq(t, "0"))))
+		f.fact(st, and(cmp(">=", t, "0"), implies(eq(m.T, "0"), eq(t, "0"))))
 	}
 	return t
 }
@@ -117,7 +117,7 @@ func (f *FuncVC) lookup(st *State, x *ssa.Lookup) *Val {
 		if m.K == KStr {
 			f.oblige(st, "index", f.srcAt(x.Pos()), and(cmp("<=", "0", k.T), cmp("<", k.T, "(gstr.len "+m.T+")")))
 			t := f.sc.define("ch", "Int", "(gstr.at "+m.T+" "+k.T+")")
-			f.sc.assert(and(cmp("<=", "0", t), cmp("<=", t, "255")))
+			f.fact(st, and(cmp("<=", "0", t), cmp("<=", t, "255")))
 			return &Val{K: KInt, Ty: x.Type(), T: t, Lo: big.NewInt(0), Hi: big.NewInt(255)}
 		}
 		f.unsup("lookup on unsupported value")
